@@ -619,11 +619,34 @@ func runC06(c *Ctx) {
 				}
 			}
 		}
-		ok, d := len(reads) == 1 && len(sendsM) == 1, fmt.Sprintf("%d read-callback calls and %d hand-overs to the writer in the reader loop (expected one each)", len(reads), len(sendsM))
+		// per path, not per site: guard-clause forms of the loop have one hand-over per branch
+		ok, d := len(reads) >= 1 && len(sendsM) >= 1, fmt.Sprintf("%d read-callback calls and %d hand-overs to the writer in the reader loop (expected at least one each)", len(reads), len(sendsM))
 		if ok {
-			rb, sb := reads[0].Block(), sendsM[0].Block()
-			if rb.Parent() != sb.Parent() || !(rb.Dominates(sb) && rb != sb) {
-				ok, d = false, "the read callback does not precede (dominate) the hand-over of the message to the writer: a reply can be written before / without the read callback"
+			for _, sm := range sendsM {
+				dom := false
+				for _, rd := range reads {
+					rb, sb := rd.Block(), sm.Block()
+					if rb.Parent() == sb.Parent() && rb.Dominates(sb) && rb != sb {
+						dom = true
+					}
+				}
+				if !dom {
+					ok, d = false, "the read callback does not precede (dominate) the hand-over of the message to the writer at "+c.P.RelPos(sm.Pos())+": a reply can be written before / without the read callback"
+				}
+			}
+			for i, r1 := range reads {
+				for j, r2 := range reads {
+					if i != j && r1.Block().Parent() == r2.Block().Parent() && (r1.Block() == r2.Block() || r1.Block().Dominates(r2.Block())) {
+						ok, d = false, "the read callback is called twice on one path ("+c.P.RelPos(r1.Pos())+", "+c.P.RelPos(r2.Pos())+")"
+					}
+				}
+			}
+			for i, s1 := range sendsM {
+				for j, s2 := range sendsM {
+					if i != j && s1.Block().Parent() == s2.Block().Parent() && (s1.Block() == s2.Block() || s1.Block().Dominates(s2.Block())) {
+						ok, d = false, "the message is handed to the writer twice on one path ("+c.P.RelPos(s1.Pos())+", "+c.P.RelPos(s2.Pos())+")"
+					}
+				}
 			}
 		}
 		st := report.Discharged
